@@ -35,15 +35,37 @@ type Op struct {
 	DefaultResp bool     `json:"default_resp,omitempty"`
 	Secured     bool     `json:"secured,omitempty"` // requires the basic scheme
 	Param       bool     `json:"param,omitempty"`   // declares a required integer query parameter n
+	// Bearer: a secured operation also admits the oauth2 scheme "oa" as an alternative requirement, listed
+	// "after" or "before" the basic one ("" for none).
+	Bearer string `json:"bearer,omitempty"`
+}
+
+// admits: the credential of the request satisfies one of the operation's requirements.
+func (o Op) admits(cred string) bool {
+	return cred == "good" || (o.Bearer != "" && cred == "goodbearer")
+}
+
+// respErr is a handler result that can write itself and is an error as well (the usual shape of a typed failure
+// response).
+type respErr struct{ call *handlerCall }
+
+func (e respErr) Error() string { return "a result that is an error as well" }
+func (e respErr) WriteResponse(rw http.ResponseWriter, p runtime.Producer) {
+	e.call.respCalls++
+	e.call.gotStamp = stampOf(p)
+	rw.WriteHeader(233)
+	if p != nil {
+		_ = p.Produce(rw, "R")
+	}
 }
 
 // Req is one request and what the operation handler will return for it.
 type Req struct {
 	Op      int         `json:"op"`
 	Ranges  []c07.Range `json:"ranges"`            // Accept header structure (none: no header)
-	Cred    string      `json:"cred,omitempty"`    // good | bad | none | malformed | bearer
+	Cred    string      `json:"cred,omitempty"`    // good | bad | none | malformed | bearer (a token nobody accepts) | goodbearer
 	Param   string      `json:"param,omitempty"`   // ok | missing | bad (only when the operation declares n)
-	Outcome string      `json:"outcome,omitempty"` // value | nil | responder | mwerror | notimpl | errplain | errstatus | errcomposite
+	Outcome string      `json:"outcome,omitempty"` // value | nil | responder | resperr | mwerror | notimpl | errplain | errstatus | errcomposite
 	Code    int         `json:"code,omitempty"`    // status of mwerror / errstatus
 	Route   string      `json:"route,omitempty"`   // "" | notfound (unknown path) | wrongmethod (PATCH, never declared)
 }
@@ -55,8 +77,10 @@ type Case struct {
 	Realm    string   `json:"realm"`               // basic auth realm
 	RealmCtx bool     `json:"realm_ctx,omitempty"` // register with BasicAuthRealmCtx instead of BasicAuthRealm
 	AuthErr  string   `json:"auth_err,omitempty"`  // what the credential check returns for bad credentials: unauth | plain | forbidden
-	Ops      []Op     `json:"ops"`
-	Reqs     []Req    `json:"reqs"`
+	// LateResponder: the API's error responder is installed after the handler has been built.
+	LateResponder bool  `json:"late_responder,omitempty"`
+	Ops           []Op  `json:"ops"`
+	Reqs          []Req `json:"reqs"`
 }
 
 type jm = map[string]interface{}
@@ -219,7 +243,14 @@ func Check(c Case) *kit.Violation {
 			o["produces"] = op.Produces
 		}
 		if op.Secured {
-			o["security"] = []jm{{"basic": []string{}}}
+			switch op.Bearer {
+			case "after":
+				o["security"] = []jm{{"basic": []string{}}, {"oa": []string{"read"}}}
+			case "before":
+				o["security"] = []jm{{"oa": []string{"read"}}, {"basic": []string{}}}
+			default:
+				o["security"] = []jm{{"basic": []string{}}}
+			}
 		}
 		if op.Param {
 			o["parameters"] = []jm{{"name": "n", "in": "query", "type": "integer", "required": true}}
@@ -227,7 +258,8 @@ func Check(c Case) *kit.Violation {
 		paths[fmt.Sprintf("/p%d", i)] = jm{strings.ToLower(op.Method): o}
 	}
 	spec := jm{"swagger": "2.0", "info": jm{"title": "t", "version": "1"}, "basePath": "/", "paths": paths,
-		"securityDefinitions": jm{"basic": jm{"type": "basic"}}}
+		"securityDefinitions": jm{"basic": jm{"type": "basic"},
+			"oa": jm{"type": "oauth2", "flow": "application", "tokenUrl": "https://example.test/token", "scopes": jm{"read": "read"}}}}
 	if len(c.Global) > 0 {
 		spec["produces"] = c.Global
 	}
@@ -267,11 +299,20 @@ func Check(c Case) *kit.Violation {
 			return nil, authFailure()
 		}))
 	}
+	api.RegisterAuth("oa", security.BearerAuth("oa", func(token string, _ []string) (interface{}, error) {
+		if token == "good-token" {
+			return "token-holder", nil
+		}
+		return nil, authFailure()
+	}))
 	var log []served
-	api.ServeError = func(rw http.ResponseWriter, _ *http.Request, e error) {
+	responder := func(rw http.ResponseWriter, _ *http.Request, e error) {
 		log = append(log, served{err: e, ct: rw.Header().Get("Content-Type"), www: append([]string(nil), rw.Header()["Www-Authenticate"]...)})
 		rw.WriteHeader(responderStatus)
 		_, _ = rw.Write([]byte("ERR"))
+	}
+	if !c.LateResponder {
+		api.ServeError = responder
 	}
 	call := &handlerCall{}
 	for i, op := range c.Ops {
@@ -289,6 +330,8 @@ func Check(c Case) *kit.Violation {
 						_ = p.Produce(rw, "R")
 					}
 				}), nil
+			case "resperr":
+				return respErr{call}, nil
 			case "mwerror":
 				return middleware.Error(call.code, "E"), nil
 			case "notimpl":
@@ -302,6 +345,9 @@ func Check(c Case) *kit.Violation {
 	var h http.Handler
 	if v := kit.Guard("middleware.NewContext/RoutesHandler", func() { h = middleware.NewContext(doc, api, nil).RoutesHandler(nil) }); v != nil {
 		return v
+	}
+	if c.LateResponder {
+		api.ServeError = responder
 	}
 
 	for ri, rq := range c.Reqs {
@@ -342,6 +388,8 @@ func Check(c Case) *kit.Violation {
 			req.Header.Set("Authorization", "Basic !!!not-base64")
 		case "bearer":
 			req.Header.Set("Authorization", "Bearer abc")
+		case "goodbearer":
+			req.Header.Set("Authorization", "Bearer good-token")
 		}
 		*call = handlerCall{outcome: rq.Outcome, code: rq.Code}
 		switch rq.Outcome {
@@ -404,7 +452,7 @@ func Check(c Case) *kit.Violation {
 			continue
 		}
 		// 1. authentication
-		if op.Secured && rq.Cred != "good" {
+		if op.Secured && !op.admits(rq.Cred) {
 			if call.ran != 0 {
 				return kit.Failf("AUTH %s; the handler ran without valid credentials", desc)
 			}
@@ -464,7 +512,7 @@ func Check(c Case) *kit.Violation {
 			return kit.Failf("CONTENT-TYPE %s; negotiable: %v", desc, keys(adm, offers))
 		}
 		switch rq.Outcome {
-		case "responder":
+		case "responder", "resperr":
 			if len(log) != 0 {
 				return kit.Failf("RESPONDER %s; the error responder ran for a successful result", desc)
 			}
